@@ -141,3 +141,29 @@ theorem ownTables_of_check (db : Db) (h : ownTablesB db = true) : OwnTables db :
     | lit s => simp at h2
 
 end EupsModel.Setup
+
+namespace EupsModel.Setup
+
+/-- variables that no table of `S` sets are never touched (no hypothesis on the tables) -/
+theorem varsOther_subjInv (cfg : Cfg) (S : Nat → Name → Prop) (e0 : Env) :
+    SubjInv cfg S (fun e => ∀ var, ¬ SetVar cfg.db (fun n => ∃ k, S k n) var → aget e.vars var = aget e0.vars var) := by
+  refine ⟨?_, fun _ _ _ _ _ _ hp => hp, fun _ _ _ _ _ hp => hp⟩
+  intro fwd k d a s hc ha hS hp
+  obtain ⟨hd, g, hg⟩ := canon_table_mem cfg.db d hc cfg.exact a ha
+  cases a with
+  | prepend v vals app => cases fwd <;> exact hp
+  | alias k' v => cases fwd <;> exact hp
+  | dep n o j v x t => exact hp
+  | set var val =>
+    have hsv : SetVar cfg.db (fun n => ∃ k, S k n) var := ⟨d, hd, ⟨k, hS⟩, g, val, hg⟩
+    intro var2 h2
+    have hne : var2 ≠ var := fun e => h2 (e ▸ hsv)
+    cases fwd with
+    | true =>
+      show aget (aset s.env.vars var _) var2 = _
+      rw [aget_aset_other _ _ _ _ hne]; exact hp var2 h2
+    | false =>
+      show aget (aunset s.env.vars var) var2 = _
+      rw [aget_aunset_other _ _ _ hne]; exact hp var2 h2
+
+end EupsModel.Setup
